@@ -147,7 +147,7 @@ LLVals(n) == SubSeq(<<"1", "2", "3", "4">>, 1, n)
 RECURSIVE DataSets(_, _, _, _), EntrySets(_, _, _)
 Opts(c, U, me, ml) ==
   CASE c.kind = "leaf" ->
-         {{}} \cup (IF c.typ = "empty" THEN {{D(c.name, << >>, {})}}
+         {{}} \cup (IF IsEmptyType(c.typ) THEN {{D(c.name, << >>, {})}}
                     ELSE {{D(c.name, <<v>>, {})} : v \in (IF c.name \in U THEN {"1", "2"} ELSE {"1"})})
     [] c.kind = "leaflist" -> {{}} \cup {{D(c.name, LLVals(n), {})} : n \in 1..ml}
     [] c.kind = "container" ->
@@ -231,5 +231,25 @@ DataShape(id) ==
     [] id = 15 ->  \* mandatory nodes at the top level (the root exists), empty-typed mandatory leaf
          << LeafM("m", "empty"), ListX("l", "k", 1, 0, << >>, << Leaf("k", "string"), LeafD("d", "int8", "5") >>),
             Cont("np", << ChoiceM("ch", << Case("c1", << Leaf("x", "string") >>), Case("c2", << Leaf("y", "empty") >>) >>) >>) >>
-NDataShapes == 15
+    [] id = 16 ->  \* three unique statements (single leaves and a descendant pair): values that coincide
+                   \* across different statements (same spelling in different leaves) are no violation
+         << ListX("l", "k", 0, 0, << << <<"a">> >>, << <<"b">> >>, << <<"np", "c">>, <<"a">> >> >>,
+                  << Leaf("k", "string"), Leaf("a", "string"), Leaf("b", "string"), Cont("np", << Leaf("c", "string") >>) >>) >>
+    [] id = 17 ->  \* names that coincide where YANG allows it: a choice, one of its cases and a leaf in it;
+                   \* a short-hand case (choice, implicit case and leaf share the name); a container and its child
+         << Choice("x", << Case("x", << LeafD("x", "string", "dx"), Leaf("x2", "string") >>),
+                           Case("y", << Leaf("y", "string"), LeafD("y2", "string", "dy2") >>) >>),
+            ChoiceD("speed", "speed", << LeafD("speed", "string", "10"), Case("duplex", << Leaf("duplex", "string"), LeafD("dd", "string", "full") >>) >>),
+            Cont("n", << LeafD("n", "string", "dn"), Leaf("m", "string") >>) >>
+    [] id = 18 ->  \* a case and the choice nested in it share a name (with a default case below), twice nested,
+                   \* inside a list entry and at the top
+         << Choice("o", << Case("c", << Leaf("p", "string"),
+                                        ChoiceD("c", "d", << Case("d", << LeafD("dd", "string", "v") >>),
+                                                             Case("c", << Leaf("ee", "string"), LeafD("ef", "string", "w") >>) >>) >>),
+                           Case("z", << Leaf("q", "string"), LeafD("qd", "string", "u") >>) >>),
+            ListX("l", "k", 0, 0, << >>, << Leaf("k", "string"),
+                  ChoiceD("l", "l", << Case("l", << LeafD("ld", "string", "v"), Leaf("lx", "string"),
+                                                    ChoiceD("l2", "l2", << LeafD("l2", "string", "w"), Leaf("l3", "string") >>) >>),
+                                       Case("m", << Leaf("mx", "string"), LeafD("md", "string", "x") >>) >>) >>) >>
+NDataShapes == 18
 =============================================================================
